@@ -327,10 +327,11 @@ def r3_connectives(chk: Check):
 
     # the return expressions are boolean combinations: decompose by hand
     rets = {}
+    rd3 = ReachingDefs(g)
     for n in g.live:
         if n.kind == "stmt" and isinstance(n.ast, ast.Return):
             gs = [(src(t.ast), pol) for t, pol in g.guards(n) if t.kind == "test"]
-            rets[tuple(gs)] = n.ast.value
+            rets[tuple(gs)] = rd3.subst(n.ast.value, n)
     ok = len(rets) == 2
     for gs, v in rets.items():
         is_and = (("self.operator == 'and'", True),) == gs
